@@ -123,6 +123,34 @@ def faults(m, meta):
         except Exception as e:  # noqa: BLE001
             problems.append({"scenario": f"closed iterator: {what} raised {type(e).__name__} instead of FinalizedIteratorError"})
     check(r, "closed-iterator-operations")
+    # ... and the finalized-iterator error comes before any validation of the arguments, for definite and INDEFINITE renderables
+    from term_image.renderable import Seek as _Seek, FrameCount as _FC
+
+    class Indef(Foo):
+        def __init__(self):
+            Renderable.__init__(self, _FC.INDEFINITE, 1)
+            self.keep = True
+            self.calls, self.fail_at, self.exc, self.created, self.stop_after, self.used_after_fin = 0, None, Boom, [], 2, 0
+    for make in (lambda: Foo(3), Indef):
+        for how in ("close", "exhaust"):
+            r = make(); it = RenderIterator(r); next(it)
+            if how == "close":
+                it.close()
+            else:
+                for _ in it:
+                    pass
+            for what, call in (("set_frame_duration(0)", lambda: it.set_frame_duration(0)), ("set_frame_duration(-5)", lambda: it.set_frame_duration(-5)),
+                               ("seek(-1, START)", lambda: it.seek(-1, _Seek.START)), ("seek(1, END)", lambda: it.seek(1, _Seek.END)),
+                               ("seek(10**6)", lambda: it.seek(10 ** 6)), ("seek(-10**6, CURRENT)", lambda: it.seek(-10 ** 6, _Seek.CURRENT)),
+                               ("set_frame_duration(10)", lambda: it.set_frame_duration(10))):
+                try:
+                    call()
+                    problems.append({"scenario": f"{type(r).__name__}: iterator after {how} accepted {what}"})
+                except FinalizedIteratorError:
+                    pass
+                except Exception as e:  # noqa: BLE001
+                    problems.append({"scenario": f"{type(r).__name__}: iterator after {how}: {what} raised {type(e).__name__} instead of FinalizedIteratorError"})
+            check(r, "closed-iterator-invalid-arguments")
     r = Foo(3); it = RenderIterator(r); it.close(); it.close(); check(r, "close-twice-before-first-frame")
     r = Foo(3); it = RenderIterator(r); list(it); check(r, "exhaust")
     r = Foo(3, fail_at=2); it = RenderIterator(r)
